@@ -34,6 +34,8 @@ def parseItem? (t : String) : Option ScriptItem :=
   else none
 
 structure Run where
+  /-- `hold`: the application does not collect downlinks after every call (they stay queued until `take`) -/
+  hold : Bool := false
   r : DevRun
   rng : RngSt
   cfg : DevCfg
@@ -70,7 +72,7 @@ def stepEvent (run : Run) (ev : String) : EvOut :=
   | ["asend", port, conf, data] =>
     match parseNat? port, Driver.parseBool? conf, natsOfHex? data with
     | some port, some conf, some data =>
-      let r0 : DevRun := { run.r with script := items, calls := [], downlinks := [] }
+      let r0 : DevRun := { run.r with script := items, calls := [], downlinks := (if run.hold then run.r.downlinks else []) }
       -- the uplink description is recomputed from the model for display
       let desc : Option UplinkDesc := match macSend rngNext r0.m data port conf run.rng with
         | .ok (some o, _, _) => some o.frame
@@ -79,15 +81,15 @@ def stepEvent (run : Run) (ev : String) : EvOut :=
       | .ok (res, r, g) =>
         let calls := String.intercalate ";" (r.calls.reverse.map showCall)
         let up := if lastTxFrameDesc r.calls then (match desc with | some d => showUp d | none => "up=-") else "up=-"
-        .out s!"calls={calls} => {showResult res} {up} dls={showDls r.downlinks}" { run with r := r, rng := g }
+        .out s!"calls={calls} => {showResult res} {up} dls={if run.hold then "-" else showDls r.downlinks}" { run with r := r, rng := g }
       | .error f => .fault (showFault f)
     | _, _, _ => .bad
   | ["ajoin"] =>
-    let r0 : DevRun := { run.r with script := items, calls := [], downlinks := [] }
+    let r0 : DevRun := { run.r with script := items, calls := [], downlinks := (if run.hold then run.r.downlinks else []) }
     match asyncJoin rngNext run.cfg r0 run.rng with
     | .ok (res, r, g) =>
       let calls := String.intercalate ";" (r.calls.reverse.map showCall)
-      .out s!"calls={calls} => {showResult res} dls={showDls r.downlinks}" { run with r := r, rng := g }
+      .out s!"calls={calls} => {showResult res} dls={if run.hold then "-" else showDls r.downlinks}" { run with r := r, rng := g }
     | .error f => .fault (showFault f)
   | ["sess", da, up, down] =>
     match parseNat? da, parseNat? up, optNat? down with
@@ -103,6 +105,8 @@ def stepEvent (run : Run) (ev : String) : EvOut :=
     match parseNat? n with
     | some n => .out "ok" { run with r := { run.r with m := macSetDatarate run.r.m n } }
     | none => .bad
+  | ["hold"] => .out "ok" { run with hold := true }
+  | ["take"] => .out s!"dls={showDls run.r.downlinks}" { run with r := { run.r with downlinks := [] } }
   | ["snap"] => .out (showSnap run.r.m) run
   | _ => .bad
 
